@@ -12,11 +12,11 @@
                      precedence-stable and lexically sane
      grouping        hence parse3 (visit e) = Some (mt e): the migrated text re-parses to the intended tree
      literal results, template-level results: see below. *)
-From Coq Require Import List NArith ZArith Bool Arith Lia.
+From Coq Require Import List NArith ZArith Bool Arith Lia ZifyBool ZifyN.
 From Coq Require String.
 Import String.StringSyntax.
 From Verif Require Import model.LegacyTy gen.LegacyTable model.LegacySyntax model.Legacy lib.Quote.
-From Verif Require Import proofs.LegacyWf proofs.LegacySyntaxProofs.
+From Verif Require Import proofs.LegacyWf proofs.LegacySyntaxProofs proofs.QuoteProofs model.LegacyCorr.
 Import ListNotations.
 Open Scope N_scope.
 
@@ -769,3 +769,203 @@ Section Main.
     intros e t H. destruct (visit_mt e t H) as [P [W L]]. rewrite P. apply parse3_print3; assumption.
   Qed.
 End Main.
+
+(* ---------------------------------------------------------------------------------------------- *)
+(* string literals *)
+
+(* legacy literal syntax: quotes doubled, nothing else escaped *)
+Fixpoint double_quotes (s : text) : text :=
+  match s with
+  | [] => []
+  | c :: r => if c =? c_dquote then c_dquote :: c_dquote :: double_quotes r else c :: double_quotes r
+  end.
+Definition legacy_quote (s : text) : text := c_dquote :: double_quotes s ++ [c_dquote].
+
+(* what the migrated literal should look like: quotes escaped by a backslash *)
+Fixpoint escape_quotes (s : text) : text :=
+  match s with
+  | [] => []
+  | c :: r => if c =? c_dquote then c_bslash :: c_dquote :: escape_quotes r else c :: escape_quotes r
+  end.
+
+Lemma replace_dq_double s : replace_dq (double_quotes s) = escape_quotes s.
+Proof.
+  induction s as [|c r IH]; [reflexivity|]. cbn [double_quotes escape_quotes].
+  destruct (c =? c_dquote) eqn:E.
+  - cbn [replace_dq]. rewrite N.eqb_refl. cbn [andb]. rewrite IH. reflexivity.
+  - cbn [replace_dq]. rewrite E. cbn [andb]. rewrite IH.
+    destruct (double_quotes r) eqn:Ed; [|reflexivity].
+    rewrite <- IH. reflexivity.
+Qed.
+
+Lemma removelast_app1 {A} (l : list A) x : removelast (l ++ [x]) = l.
+Proof. apply removelast_last. Qed.
+
+Lemma migrate_legacy_quote s : migrate_string_literal (legacy_quote s) = c_dquote :: escape_quotes s ++ [c_dquote].
+Proof.
+  unfold migrate_string_literal, legacy_quote. cbn [tl]. rewrite removelast_app1, replace_dq_double. reflexivity.
+Qed.
+
+Definition plain_char (c : N) : Prop := c <> c_bslash /\ c <> 10.
+
+(* the Excellent3 reading of a migrated literal (strconv.Unquote; model/LegacyCorr.v chars3) gives back the
+   characters of the legacy literal, for literals without backslash and without raw newline *)
+Lemma unquote_escape : forall s f acc,
+  Forall plain_char s -> (length (escape_quotes s) < f)%nat ->
+  unquote_loop f (escape_quotes s ++ [34]) acc false = UOk (rev acc ++ s).
+Proof.
+  induction s as [|c r IH]; intros f acc Hp Hf.
+  - destruct f as [|f]; [cbn in Hf; lia|]. cbn. rewrite app_nil_r. reflexivity.
+  - inversion Hp as [|? ? [Hb Hn] Hr]; subst. cbn [escape_quotes] in *.
+    destruct (c =? c_dquote) eqn:E.
+    + apply N.eqb_eq in E. subst c.
+      destruct f as [|f]; [cbn in Hf; lia|].
+      change ((c_bslash :: c_dquote :: escape_quotes r) ++ [34]) with (92 :: 34 :: escape_quotes r ++ [34]).
+      rewrite loop_bs. cbn [unquote_char N.eqb Pos.eqb N.leb N.compare Pos.compare Pos.compare_cont negb].
+      replace (octdig 34) with (@None N) by reflexivity. cbn iota. change (34 <? 128) with true. cbn [orb].
+      rewrite IH; [|assumption|cbn [length] in Hf; lia].
+      cbn [rev]. rewrite <- app_assoc. reflexivity.
+    + destruct f as [|f]; [cbn in Hf; lia|].
+      change ((c :: escape_quotes r) ++ [34]) with (c :: escape_quotes r ++ [34]).
+      unfold c_dquote in E. unfold c_bslash in Hb.
+      rewrite loop_raw by lia.
+      rewrite IH; [|assumption|cbn [length] in Hf; lia].
+      cbn [rev]. rewrite <- app_assoc. reflexivity.
+Qed.
+
+Theorem literals_partial : forall s, Forall plain_char s ->
+  chars3 (migrate_string_literal (legacy_quote s)) = Some s.
+Proof.
+  intros s Hp. rewrite migrate_legacy_quote. unfold chars3, unquote.
+  destruct (escape_quotes s ++ [c_dquote]) as [|x l] eqn:El.
+  { destruct (escape_quotes s); discriminate El. }
+  rewrite <- El. change (c_dquote =? 34) with true. cbn iota.
+  rewrite (unquote_escape s _ [] Hp).
+  - reflexivity.
+  - rewrite app_length. cbn. lia.
+Qed.
+
+(* ... and the Excellent3 lexer reads the migrated literal as one TEXT token *)
+Lemma quotes_escaped_escape : forall s pb, Forall (fun c => c <> c_bslash) s ->
+  quotes_escaped pb (escape_quotes s) = match s with [] => negb pb | _ => true end.
+Proof.
+  induction s as [|c r IH]; intros pb Hp; [reflexivity|].
+  inversion Hp as [|? ? Hb Hr]; subst. cbn [escape_quotes].
+  destruct (c =? c_dquote) eqn:E.
+  - cbn [quotes_escaped]. unfold c_bslash, c_dquote. cbn [N.eqb Pos.eqb]. rewrite IH by assumption.
+    destruct r; reflexivity.
+  - cbn [quotes_escaped]. rewrite E. rewrite IH by assumption.
+    destruct r; [|reflexivity]. cbn [negb]. unfold c_bslash in *. lia.
+Qed.
+
+Lemma text_eqb_refl a : text_eqb a a = true.
+Proof. induction a as [|x r IH]; [reflexivity|]. cbn [text_eqb]. rewrite N.eqb_refl, IH. reflexivity. Qed.
+
+Theorem literal_text_ok : forall s, Forall (fun c => c <> c_bslash) s ->
+  text_ok (migrate_string_literal (legacy_quote s)) = true.
+Proof.
+  intros s Hp. rewrite migrate_legacy_quote. unfold text_ok. cbn [tl]. rewrite removelast_app1.
+  rewrite text_eqb_refl. cbn [andb]. rewrite quotes_escaped_escape by assumption. destruct s; reflexivity.
+Qed.
+
+(* a backslash in the literal changes its meaning (finding F14c); so does a raw newline next to a quote *)
+Theorem literals_refuted_backslash :
+  exists s, chars3 (migrate_string_literal (legacy_quote s)) <> Some s.
+Proof. exists [97; 92; 98]. vm_compute. discriminate. Qed.
+
+Theorem literals_refuted_newline_quote :
+  exists s, Forall (fun c => c <> c_bslash) s /\ chars3 (migrate_string_literal (legacy_quote s)) <> Some s.
+Proof.
+  exists [97; 10; 34; 98]. split.
+  - repeat constructor; discriminate.
+  - vm_compute. discriminate.
+Qed.
+
+Example literals_partial_nontrivial :
+  Forall plain_char [97; 34; 34; 32; 233; 34] /\
+  migrate_string_literal (legacy_quote [97; 34; 34; 32; 233; 34]) = [34; 97; 92; 34; 92; 34; 32; 233; 92; 34; 34].
+Proof. split; [repeat constructor; discriminate | reflexivity]. Qed.
+
+(* ---------------------------------------------------------------------------------------------- *)
+(* templates: text outside expressions *)
+
+Section Template.
+  Variable ctxmap : text -> text.
+  Variable raw_dates default_to_self url_encode : bool.
+  Variable printable : N -> bool.
+
+  Let mseg := migrate_seg ctxmap raw_dates default_to_self url_encode printable.
+  Let mtpl := migrate_template ctxmap raw_dates default_to_self url_encode printable.
+
+  (* the output is the concatenation of the per-token outputs, a body token contributes exactly itself and
+     never an error *)
+  Theorem body_unchanged : forall segs,
+    fst (mtpl segs) = concat (map (fun s => fst (mseg s)) segs)
+    /\ snd (mtpl segs) = existsb (fun s => snd (mseg s)) segs
+    /\ forall t, mseg (SBody t) = (t, false).
+  Proof.
+    intros segs. split; [|split].
+    - induction segs as [|s r IH]; [reflexivity|].
+      unfold mtpl in *. cbn [migrate_template map concat].
+      fold mseg. destruct (mseg s) as [o e]. 
+      destruct (migrate_template ctxmap raw_dates default_to_self url_encode printable r) as [o' e'].
+      cbn [fst] in *. rewrite IH. reflexivity.
+    - induction segs as [|s r IH]; [reflexivity|].
+      unfold mtpl in *. cbn [migrate_template existsb].
+      fold mseg. destruct (mseg s) as [o e].
+      destruct (migrate_template ctxmap raw_dates default_to_self url_encode printable r) as [o' e'].
+      cbn [snd] in *. rewrite IH. reflexivity.
+    - reflexivity.
+  Qed.
+
+  (* a template without identifiers and expressions migrates to itself *)
+  Corollary body_only : forall ts, mtpl (map SBody ts) = (concat ts, false).
+  Proof.
+    induction ts as [|t r IH]; [reflexivity|].
+    unfold mtpl in *. cbn [map migrate_template migrate_seg]. rewrite IH. reflexivity.
+  Qed.
+
+  (* an expression token that migrates (legacy parse ok, intended tree defined) becomes @( text ) where text
+     re-parses to the intended tree; every expression of the output parses *)
+  Theorem expr_parses : forall s e t,
+    default_to_self = false -> url_encode = false ->
+    text_eqb s t_empty_literal = false ->
+    parse1 s = Some e -> mt ctxmap raw_dates e = Some t ->
+    exists body, mseg (SExpr s) = (64 :: body, false) /\
+      (body = print3 t \/ body = 40 :: print3 t ++ [41]) /\
+      parse3 (print3 t) = Some t.
+  Proof.
+    intros s e t Hd Hu Hne Hp Hm. unfold mseg, migrate_seg, migrate_expression.
+    rewrite Hne, Hp, Hd, Hu. destruct (visit_mt ctxmap raw_dates e t Hm) as [Pv [W L]].
+    rewrite Pv. unfold wrap_raw.
+    destruct (is_valid_identifier (print3 t)).
+    - eexists. split; [reflexivity|]. split; [left; reflexivity | apply parse3_print3; assumption].
+    - eexists. split; [reflexivity|]. split; [right; reflexivity | apply parse3_print3; assumption].
+  Qed.
+End Template.
+
+(* ---------------------------------------------------------------------------------------------- *)
+(* the hypotheses are satisfiable: a nested legacy expression with every kind of migrator *)
+
+Definition ex_ctx (n : text) : text :=
+  if text_eqb n (s2t "contact.age"%string) then s2t "fields.age"%string else lower n.
+
+Definition ex_legacy : text :=
+  s2t "2 * SUM(1, POWER(contact.age + 1, 2)) - 10 ^ -RIGHT(""a""""b"", 1 + 1) & WORD(CONCATENATE(""x"", 1 = 1), contact.age & 1, TRUE)"%string.
+
+Definition ex_migrated : text :=
+  s2t "legacy_add(2 * (1 + legacy_add(fields.age, 1) ^ 2), -(10 ^ -text_slice(""a\""b"", -(1 + 1)))) & word(""x"" & 1 = 1, (fields.age & 1) - 1, "" \t"")"%string.
+
+Example ex_grouping :
+  exists e t, parse1 ex_legacy = Some e /\ mt ex_ctx false e = Some t /\
+    visit ex_ctx false e = ex_migrated /\ parse3 ex_migrated = Some t.
+Proof.
+  destruct (parse1 ex_legacy) as [e|] eqn:Ep; [|vm_compute in Ep; discriminate].
+  destruct (mt ex_ctx false e) as [t|] eqn:Em.
+  - exists e, t. split; [reflexivity|]. split; [exact Em|].
+    pose proof (grouping ex_ctx false e t Em) as G.
+    assert (V : visit ex_ctx false e = ex_migrated).
+    { vm_compute in Ep. inversion Ep; subst e. vm_compute. reflexivity. }
+    rewrite V in G. split; assumption.
+  - vm_compute in Ep. inversion Ep; subst e. vm_compute in Em. discriminate.
+Qed.
